@@ -159,9 +159,12 @@ m('c14_swallow_queue_full', ['C14'], S,
   ("                raise  # could also block indefinitely until queue has space, but dont drop silently or delete events", "                pass"))
 m('c15_join_on_done_flag_only', ['C15'], S,
   ("            join_task = asyncio.create_task(self.event_queue.join())\n            await asyncio.wait_for(join_task, timeout=remaining_timeout)", "            if self.event_queue.qsize():\n                join_task = asyncio.create_task(self.event_queue.join())\n                await asyncio.wait_for(join_task, timeout=remaining_timeout)"),
-  ("            while not self._on_idle.is_set() or self.events_started or self.events_pending:", "            while not self._on_idle.is_set():"))
+  ("            while (\n                not self._on_idle.is_set()\n                or self.events_started\n                or self.events_pending\n                or self._events_in_flight\n                or self.event_queue.qsize()  # e.g. forwarded in meanwhile: already 'completed' on the bus it came from\n            ):", "            while not self._on_idle.is_set():"))
 m('c15_no_recheck_loop', ['C15'], S,
-  ("            while not self._on_idle.is_set() or self.events_started or self.events_pending:", "            while False:"))
+  ("            while (\n                not self._on_idle.is_set()\n                or self.events_started\n                or self.events_pending\n                or self._events_in_flight\n                or self.event_queue.qsize()  # e.g. forwarded in meanwhile: already 'completed' on the bus it came from\n            ):", "            while False:"))
+m('rev_F26_inflight_not_counted', ['C15'], S,
+  ("        self._events_in_flight += 1\n", "        self._events_in_flight += 0\n"),
+  ("            self._events_in_flight -= 1\n", "            self._events_in_flight -= 0\n"))
 m('c16_stop_waits_unbounded', ['C16'], S,
   ("            await asyncio.wait({self._runloop_task}, timeout=0.1)\n            try:\n                self._runloop_task.cancel()", "            await asyncio.wait({self._runloop_task}, timeout=None if self.events_started else 0.1)\n            try:\n                self._runloop_task.cancel()"))
 m('c17_wal_before_handlers', ['C17'], S,
